@@ -167,6 +167,9 @@ func (s *syncBuffer) String() string {
 	return fmt.Sprintf("%x", s.b.Bytes())
 }
 
+// subjects that accept payloads above 1460 bytes (the NACK responder rejects them, the jitter buffer reads into 1700 bytes)
+var oversizeOK = map[string]bool{"pacing-interceptor": true, "gcc-leaky-bucket-pacer": true, "packetdump-sender": true, "stats": true, "flexfec": true}
+
 func subjects() []subject {
 	return []subject{
 		{name: "nack-responder", run: func(hist []*pkt, nackFor []uint16, reuse bool) ([]string, error) {
@@ -481,7 +484,11 @@ func TestCallerBuffersNotRetained(t *testing.T) {
 		for i := range hist {
 			hdr := kit.GenHeader(t, "h", kit.HeaderShape{NoPadding: true})
 			hdr.SSRC, hdr.SequenceNumber, hdr.Timestamp = mediaSSRC, start+uint16(i), uint32(i)*3000 //nolint:gosec
-			payload := kit.Payload(t, "p", 1400)
+			maxPayload := 1400
+			if oversizeOK[sub.name] && rapid.IntRange(0, 3).Draw(t, "oversize") == 0 {
+				maxPayload = 1580 // above the 1460-byte pool buffers some members use
+			}
+			payload := kit.Payload(t, "p", maxPayload)
 			if len(payload) == 0 {
 				payload = []byte{byte(i)}
 			}
